@@ -17,6 +17,9 @@ pub fn run(name: &str, seed: u64, rest: &[String]) -> String {
         "hash" => hash_oracle(seed),
         "cipher" => cipher_oracle(seed),
         "tile" => tile_oracle(),
+        "rle_total" => rle_total(seed),
+        "sparse" => sparse_oracle(seed),
+        "compress_rule" => compress_rule(seed),
         _ => { let _ = rest; format!("{{\"oracle\":{},\"error\":\"unknown oracle\"}}", js(name)) }
     }
 }
@@ -108,4 +111,115 @@ fn tile_oracle() -> String {
     if bad.is_empty() { none("tile", 4096) } else {
         fail("tile", format!("{} of 4096 tiles, first {}", bad.len(), bad[0]), bad[..bad.len().min(8)].join(" "), "identity".into())
     }
+}
+
+fn catch<T>(f: impl FnOnce() -> T + panic::UnwindSafe) -> Result<T, String> {
+    panic::catch_unwind(f).map_err(|e| {
+        if let Some(s) = e.downcast_ref::<String>() { s.clone() } else if let Some(s) = e.downcast_ref::<&str>() { s.to_string() } else { "panic".into() }
+    })
+}
+
+fn rle_total(seed: u64) -> String {
+    let mut rng = Rng(seed ^ 0xA5A5A5A5);
+    let mut cases: Vec<(Vec<u8>, usize, bool)> = vec![
+        (vec![], 0, false), (vec![], 4, true), (vec![0x85, 0x41], 8, false), (vec![0xFF], 300, false), (vec![0x7F], 1, false),
+        (vec![0, 0, 0, 0, 0x85, 0x41], 8, true), (vec![0x80], 1, false), (vec![0xFF; 3], 2, false),
+    ];
+    for _ in 0..3000 {
+        let n = (rng.next() % 12) as usize;
+        cases.push((rng.bytes(n), (rng.next() % 300) as usize, rng.next() % 2 == 0));
+    }
+    let tried = cases.len();
+    for (data, size, hdr) in cases {
+        let d2 = data.clone();
+        let r = catch(move || wow_mpq::compression::rle::decompress(&d2, size, hdr).map(|v| v.len()));
+        match r {
+            Err(p) => return fail("rle_total", format!("rle::decompress({:02x?}, {}, {})", data, size, hdr), format!("panic: {}", p), "Ok or Err, no panic".into()),
+            Ok(Ok(l)) if l != size => return fail("rle_total", format!("rle::decompress({:02x?}, {}, {})", data, size, hdr), format!("len {}", l), format!("len {}", size)),
+            _ => {}
+        }
+    }
+    none("rle_total", tried)
+}
+
+fn sparse_inputs(rng: &mut Rng) -> Vec<Vec<u8>> {
+    let mut v: Vec<Vec<u8>> = Vec::new();
+    // boundary shapes: literal runs and zero runs around 0x80..0x86, with context that makes sparse pay off
+    for run in [1usize, 2, 3, 4, 0x7F, 0x80, 0x81, 0x82, 0x83, 0x100, 0x101, 0x181] {
+        for zeros in [0usize, 1, 2, 3, 4, 0x80, 0x81, 0x82, 0x83, 0x84, 0x85, 0x86, 0x87, 0x104, 0x105, 0x108, 0x200] {
+            let mut d = vec![7u8; run];
+            d.extend(std::iter::repeat(0).take(zeros));
+            d.extend([9u8, 9]);
+            d.extend(std::iter::repeat(0).take(300));
+            v.push(d.clone());
+            let mut e = vec![0u8; zeros];
+            e.extend(vec![5u8; run]);
+            e.extend(std::iter::repeat(0).take(200));
+            v.push(e);
+            let mut f = vec![0u8; 300];
+            f.extend(vec![3u8; run.min(3)]);
+            v.push(f);
+        }
+    }
+    for _ in 0..300 {
+        let n = (rng.next() % 600) as usize;
+        let density = rng.next() % 8;
+        v.push((0..n).map(|_| if rng.next() % 8 < density { 0 } else { (rng.next() >> 11) as u8 }).collect());
+    }
+    v
+}
+
+fn sparse_oracle(seed: u64) -> String {
+    let mut rng = Rng(seed ^ 0x5151);
+    let inputs = sparse_inputs(&mut rng);
+    let mut tried = 0;
+    let m = wow_mpq::compression::flags::SPARSE;
+    for d in &inputs {
+        tried += 1;
+        let d2 = d.clone();
+        let r = catch(move || wow_mpq::compression::compress(&d2, m));
+        let c = match r { Err(p) => return fail("sparse", format!("compress(len {} data {:02x?}.., SPARSE)", d.len(), &d[..d.len().min(16)]), format!("panic: {}", p), "no panic".into()), Ok(Err(_)) => continue, Ok(Ok(c)) => c };
+        if c.len() < d.len() {
+            let c2 = c.clone(); let n = d.len();
+            let r = catch(move || wow_mpq::compression::decompress(&c2[1..], c2[0], n));
+            match r {
+                Err(p) => return fail("sparse", format!("decompress(compress(x)) with |x|={} x[..16]={:02x?}", d.len(), &d[..d.len().min(16)]), format!("panic: {}", p), "x".into()),
+                Ok(Err(e)) => return fail("sparse", format!("decompress(compress(x)) with |x|={} x[..16]={:02x?}", d.len(), &d[..d.len().min(16)]), format!("Err({})", e), "Ok(x)".into()),
+                Ok(Ok(back)) => if &back != d { return fail("sparse", format!("decompress(compress(x)) with |x|={} x[..16]={:02x?}", d.len(), &d[..d.len().min(16)]), format!("different bytes (len {})", back.len()), "x".into()); }
+            }
+        }
+    }
+    // decoder totality on arbitrary bytes
+    for _ in 0..3000 {
+        tried += 1;
+        let n = (rng.next() % 14) as usize;
+        let b = rng.bytes(n);
+        let sz = (rng.next() % 400) as usize;
+        let b2 = b.clone();
+        let r = catch(move || wow_mpq::compression::decompress(&b2, m, sz).map(|v| v.len()));
+        if let Err(p) = r { return fail("sparse", format!("decompress({:02x?}, SPARSE, {})", b, sz), format!("panic: {}", p), "Ok or Err".into()); }
+    }
+    none("sparse", tried)
+}
+
+fn compress_rule(seed: u64) -> String {
+    use wow_mpq::compression::flags;
+    let mut rng = Rng(seed ^ 0xC0FFEE);
+    let mut inputs: Vec<Vec<u8>> = Vec::new();
+    for n in 0..80usize { inputs.push((0..n).map(|i| b"the quick brown fox jumps over the lazy dog "[i % 44]).collect()); }
+    for n in [4usize, 8, 12, 16, 20, 24, 32] { for z in 3..12usize { let mut d = vec![1u8; n / 2]; d.extend(vec![0u8; z]); d.extend(vec![2u8; n / 2]); inputs.push(d); } }
+    for _ in 0..60 { let n = (rng.next() % 200) as usize; inputs.push(rng.bytes(n)); }
+    let mut tried = 0;
+    for d in &inputs {
+        for m in [flags::ZLIB, flags::BZIP2, flags::SPARSE, flags::LZMA] {
+            tried += 1;
+            let d2 = d.clone();
+            let c = match catch(move || wow_mpq::compression::compress(&d2, m)) { Ok(Ok(c)) => c, Ok(Err(_)) => continue,
+                Err(p) => return fail("compress_rule", format!("compress({:02x?}, {:#x})", d, m), format!("panic: {}", p), "no panic".into()) };
+            if c.len() > d.len() { return fail("compress_rule", format!("compress({:02x?}, {:#x})", d, m), format!("stored {} bytes", c.len()), format!("<= {} bytes", d.len())); }
+            if c.len() == d.len() && &c != d { return fail("compress_rule", format!("compress({:02x?}, {:#x})", d, m), "same length as input but not the raw bytes (reader treats equal length as raw)".into(), "raw bytes".into()); }
+            if c.len() < d.len() && c[0] != m { return fail("compress_rule", format!("compress({:02x?}, {:#x})", d, m), format!("prefix {:#x}", c[0]), format!("prefix {:#x}", m)); }
+        }
+    }
+    none("compress_rule", tried)
 }
